@@ -2,6 +2,7 @@
 
 usage: xml_target.py <mode> <artifact_dir> [libFuzzer args...]
 mode: raw    - bytes are decoded as UTF-8 text and given to the reader
+      json   - bytes are decoded and parsed as JSON; odML-shaped dictionaries go to the dictionary reader
       struct - bytes drive the Hypothesis grammar of C16 (fuzz_one_input)
 The oracle is inside the target: any outcome other than a Document satisfying the tree/name
 invariants or a ParserException aborts the process and libFuzzer saves the input.
@@ -47,6 +48,45 @@ def raw_one_input(data):
     check_text(text)
 
 
+from vf.fuzz.shape import shaped  # noqa
+
+
+def json_one_input(data):
+    import copy
+    import json
+    from odml.tools.dict_parser import DictReader
+    from odml.tools.odmlparser import ODMLReader
+    try:
+        text = data.decode("utf-8")
+        root = json.loads(text)
+    except (UnicodeDecodeError, ValueError, RecursionError):
+        return
+    if not shaped(root):
+        return
+    for lenient in (False, True):
+        env.reset_lib_state()
+        try:
+            doc = DictReader(show_warnings=False, ignore_errors=lenient).to_odml(copy.deepcopy(root))
+        except ParserException:
+            if lenient and root.get("odml-version") == "1.1":
+                raise OracleFailure("lenient dictionary reader raised on a current-version dictionary")
+            continue
+        check_doc(doc)
+    try:
+        check_doc(ODMLReader("JSON", show_warnings=False).from_string(text))
+    except ParserException:
+        pass
+
+
+def check_doc(doc):
+    if not isinstance(doc, odml.doc.BaseDocument):
+        raise OracleFailure("returned %r" % type(doc))
+    objs = snap.reachable([doc])
+    bad = inv.tree_failures(objs) or inv.name_failures(objs)
+    if bad:
+        raise OracleFailure("bad document: %s" % bad[0]["detail"])
+
+
 def main():
     mode = sys.argv[1]
     argv = [sys.argv[0]] + sys.argv[2:]
@@ -57,6 +97,8 @@ def main():
     warnings.simplefilter("ignore")
     if mode == "raw":
         atheris.Setup(argv, raw_one_input)
+    elif mode == "json":
+        atheris.Setup(argv, json_one_input)
     else:
         from hypothesis import given, settings, HealthCheck
         from vf.checks import c16
